@@ -719,6 +719,23 @@ func init() {
 			setRes(st, in, Sub(t, timeExt(args[0])))
 			return true
 		},
+		"time.Unix": func(ex *Exec, st *State, args []Value, in *ssa.Call, pos token.Pos) bool {
+			setRes(st, in, mkTime(in.Type(), Add(Mul(args[0].(*Term), Const(64, 1000000000)), args[1].(*Term))))
+			return true
+		},
+		"(time.Time).After": func(ex *Exec, st *State, args []Value, in *ssa.Call, pos token.Pos) bool {
+			setRes(st, in, Slt(timeExt(args[1]), timeExt(args[0])))
+			return true
+		},
+		"(time.Time).IsZero": func(ex *Exec, st *State, args []Value, in *ssa.Call, pos token.Pos) bool {
+			setRes(st, in, Eq(timeExt(args[0]), Const(64, 0)))
+			return true
+		},
+		"(time.Time).Compare": func(ex *Exec, st *State, args []Value, in *ssa.Call, pos token.Pos) bool {
+			a, b := timeExt(args[0]), timeExt(args[1])
+			setRes(st, in, Ite(Slt(a, b), Const(64, ^uint64(0)), Ite(Eq(a, b), Const(64, 0), Const(64, 1))))
+			return true
+		},
 		"(time.Time).Equal": func(ex *Exec, st *State, args []Value, in *ssa.Call, pos token.Pos) bool {
 			setRes(st, in, Eq(timeExt(args[0]), timeExt(args[1])))
 			return true
@@ -812,6 +829,37 @@ func init() {
 			rem := ex.remaining(st, id)
 			a, off := ex.consume(st, id, rem)
 			setRes(st, in, TupleV{SliceV{ex.newObj(st, ArrV{ACopy(AConst(8, 0), Const(64, 0), a, off, rem), -1, 8}), Const(64, 0), rem, rem}, nilErr})
+			return true
+		},
+		"math/rand/v2.New": func(ex *Exec, st *State, args []Value, in *ssa.Call, pos token.Pos) bool {
+			et := in.Type().Underlying().(*types.Pointer).Elem()
+			setRes(st, in, PtrV{Obj: ex.newObj(st, zeroValue(et))})
+			return true
+		},
+		"math/rand/v2.NewPCG": func(ex *Exec, st *State, args []Value, in *ssa.Call, pos token.Pos) bool {
+			et := in.Type().Underlying().(*types.Pointer).Elem()
+			setRes(st, in, PtrV{Obj: ex.newObj(st, zeroValue(et))})
+			return true
+		},
+		"math/rand/v2.Uint64": func(ex *Exec, st *State, args []Value, in *ssa.Call, pos token.Pos) bool {
+			setRes(st, in, ex.freshVar("rand", BV(64)))
+			return true
+		},
+		"math/rand/v2.N[time.Duration]": func(ex *Exec, st *State, args []Value, in *ssa.Call, pos token.Pos) bool {
+			v := ex.freshVar("rand", BV(64))
+			st.pc = append(st.pc, Sle(Const(64, 0), v), Slt(v, args[0].(*Term)))
+			setRes(st, in, v)
+			return true
+		},
+		"(*math/rand/v2.Rand).IntN": func(ex *Exec, st *State, args []Value, in *ssa.Call, pos token.Pos) bool {
+			v := ex.freshVar("rand", BV(64))
+			st.pc = append(st.pc, Sle(Const(64, 0), v), Slt(v, args[1].(*Term)))
+			setRes(st, in, v)
+			return true
+		},
+		"context.WithCancel": func(ex *Exec, st *State, args []Value, in *ssa.Call, pos token.Pos) bool {
+			nop := ex.modelFunc("Nop")
+			setRes(st, in, TupleV{args[0], FuncV{Fn: nop}})
 			return true
 		},
 		"math/rand/v2.Uint32": func(ex *Exec, st *State, args []Value, in *ssa.Call, pos token.Pos) bool {
